@@ -100,7 +100,7 @@ CHECKS = {
              "whether it succeeds or raises, by add_record sequences (update, constructors, unified, flattened, add_bundle of a document) and "
              "by allocation (c18_newRecord_wf, c18_addRecords_wf, c18_allocCont_wf); on a coherent container get_record(x) = filter of the "
              "record list by the URI x resolves to, for every spelling (c18_get_record, c18_spelling_independent); get_records(cls) = class "
-             "filter. Correspondence after every record-adding operation, in all 4 spellings, plus an independent scan oracle. All histories (Props/C18R): c18_reachable_wf - coherence of _records and _id_map after any sequence of the public mutators with any arguments; c18_get_record_reachable - get_record on any reachable container is the filter by the denoted URI, in insertion order.",
+             "filter. Correspondence after every record-adding operation, in all 4 spellings, plus an independent scan oracle. All histories (Props/C18R): c18_reachable_wf - coherence of _records and _id_map after any sequence of the public mutators with any arguments; c18_get_record_reachable - get_record on any reachable container is the filter by the denoted URI, in insertion order. Every history (Props/C18S): the coherence invariant WF is also kept by add_record, update, add_bundle, flattened() and unified() of bundles and documents, with any arguments, whether they succeed or raise (dstep_wf18), so in every state the public interface can produce (ReachAny: mutators and deriving operations in any order) every container is coherent (c18_reachAny_wf) and get_record in every spelling finds exactly the records with that identifier, in insertion order - also in unified / flattened / updated documents and in their sources afterwards (c18_get_record_reachAny; instance: the merged record of a unified bundle).",
         note=A_COMMON + " 'prefix:local'/bare spellings denote what valid_qualified_name resolves them to (C03). The full-URI spelling "
              "needed a fix: commit (adopted default namespace).",
         technique="Lean 4 refinement proof (index = filter of list) by induction over heap operations + op-sequence correspondence",
